@@ -17,7 +17,7 @@ from common import time_limit, Timeout, hex6
 ID = "C20"
 GEN_DEPENDS = ["Tables"]
 RULE = ("grammar-generated valid Newick/NEXUS/PHYLIP/FASTA documents (every supported block structure: TAXA, CHARACTERS/DATA "
-        "sequential+interleaved, INTERLEAVE x MATCHCHAR matrices with every single-character edit of the matrix body, several TAXA blocks, TREES with/without TRANSLATE/LINK/TITLE, SETS/CHARSET, unknown blocks) x {every prefix, single "
+        "sequential+interleaved, INTERLEAVE x MATCHCHAR matrices with every single-character edit of the matrix body, trees with [&k=v,..]/[&&NHX:..] metadata comments (quoted values, braces, long values) with every single-character corruption inside a comment, metadata extraction on and off, several TAXA blocks, TREES with/without TRANSLATE/LINK/TITLE, SETS/CHARSET, unknown blocks) x {every prefix, single "
         "and double edits (delete, insert, replace, drop span, duplicate span, drop word, insert keyword)}, random strings and "
         "keyword soups over each format's token alphabet, deep nesting / long comment runs; thorough adds every string up to a "
         "length bound over a small alphabet per format and every short NEXUS keyword sequence; non-trivial = the text is not a "
@@ -348,6 +348,70 @@ def matrix_body_edits(doc, span, mc):
             yield text[:i] + ch + text[i:]
             if text[i] != ch:
                 yield text[:i] + ch + text[i + 1:]
+
+
+def metadata_comment(rng):
+    """a FigTree/BEAST- or NHX-style metadata comment with quoted values, braces, nested brackets and long values"""
+    long_text = " ".join(rng.choice(["crown", "group", "of", "the", "stem", "lineage", "node", "alpha", "beta"]) for _ in range(rng.randint(6, 12)))
+    values = ['"%s"' % long_text, '"a,b"', "{0.1,0.25}", '{"x y","z"}', "0.98", "1.0E-2", "'q v'", "abc", '{%s}' % ",".join("%d.5" % i for i in range(12)),
+              "[nested]", '"%s"' % ("x" * rng.randint(40, 60)), "%s" % ("y" * rng.randint(40, 60))]
+    if rng.random() < 0.35:
+        fields = ["%s=%s" % (rng.choice(["S", "B", "name", "T"]), rng.choice(values)) for _ in range(rng.randint(1, 4))]
+        return "[&&NHX:%s]" % ":".join(fields)
+    fields = ["%s=%s" % (rng.choice(["posterior", "name", "height_95%_HPD", "rate", "!color", "label"]), rng.choice(values))
+              for _ in range(rng.randint(1, 4))]
+    return "[&%s]" % ",".join(fields)
+
+
+def gen_metadata_tree(rng, nexus=None):
+    """a tree whose tree / node / edge comments carry metadata; returns the document and the spans of the comments"""
+    n = rng.randint(2, 4)
+    labs = ["T%d" % i for i in range(n)]
+    spans = []
+    parts = []
+
+    def emit(text, comment=False):
+        pos = sum(len(x) for x in parts)
+        parts.append(text)
+        if comment:
+            spans.append((pos, pos + len(text)))
+    nexus = rng.random() < 0.4 if nexus is None else nexus
+    if nexus:
+        emit("#NEXUS\nBEGIN TAXA;\n  DIMENSIONS NTAX=%d;\n  TAXLABELS %s;\nEND;\nBEGIN TREES;\n  TREE t1 = " % (n, " ".join(labs)))
+    if rng.random() < 0.6:
+        emit(rng.choice(["[&R] ", "[&U] ", ""]))
+        emit(metadata_comment(rng), True)
+        emit(" ")
+    emit("(")
+    for i, l in enumerate(labs):
+        if i:
+            emit(",")
+        emit(l)
+        if rng.random() < 0.6:
+            emit(metadata_comment(rng), True)
+        emit(":%s" % rng.choice(["1", "0.5", "2.25"]))
+        if rng.random() < 0.4:
+            emit(metadata_comment(rng), True)
+    emit(")")
+    if rng.random() < 0.5:
+        emit(metadata_comment(rng), True)
+    emit(";\n")
+    if nexus:
+        emit("END;\n")
+    if not spans:
+        return gen_metadata_tree(rng, nexus)
+    return {"schema": "nexus" if nexus else "newick", "text": "".join(parts), "kwargs": {}}, spans
+
+
+def comment_edits(doc, spans):
+    """single-character corruptions inside the metadata comments: every deletion; quote, brace, bracket, separator insertions"""
+    text = doc["text"]
+    for a, b in spans:
+        for i in range(a, b):
+            yield text[:i] + text[i + 1:]
+        for i in range(a + 1, b):
+            for ch in ('"', "'", "{", "}", "=", ",", "[", "]"):
+                yield text[:i] + ch + text[i:]
 
 
 def gen_phylip(rng):
@@ -1097,6 +1161,16 @@ def run(ctx):
                     if ctx.out_of_time() or st.hangs > MAX_HANGS:
                         break
                     judge(ctx, dendropy, make_case("nexus", t, {}, ROUTES["nexus"][k % 5 if k % 7 == 0 else 0], "matrixedit"), st)
+            if schema == "newick" and (thorough or r % 2 == 1):
+                # comment metadata ([&k=v,...], [&&NHX:...]) on trees, nodes and edges: the regexes of nexusprocessing are
+                # reader code; every single-character corruption inside a comment, with metadata extraction on and off
+                mdoc, spans = gen_metadata_tree(rng)
+                corruptions_of(ctx, dendropy, mdoc, st, n_edits=5, n_double=5, all_prefixes=True, prefix_step=2)
+                for k, t in enumerate(comment_edits(mdoc, spans)):
+                    if ctx.out_of_time() or st.hangs > MAX_HANGS:
+                        break
+                    kwargs = {"extract_comment_metadata": False} if k % 5 == 4 else {}
+                    judge(ctx, dendropy, make_case(mdoc["schema"], t, kwargs, ROUTES[mdoc["schema"]][0], "commentedit"), st)
             for _ in range(ctx.pick(25, 60)):
                 judge(ctx, dendropy, make_case(schema, random_string(rng, schema), {}, rng.choice(ROUTES[schema]), "random"), st)
             for _ in range(ctx.pick(10, 30)):
